@@ -94,6 +94,9 @@ class C19(Property):
                 tail = [b"T%dq" % i for i in range(rng.choice([0, 0, 1, 2]))] if any(x["k"] == "many" and x["p"]["k"] == "pos" for x in opts["p"]["fields"]) else []
                 argv_ok = argv + tail
                 cases.append(Case(gid + "b", opts, argv_ok, tags={"role": "base", "group": gid, "blocks": [b[1] for b in blocks], "gnames": gnames}))
+                if tail:
+                    # the free words to the LEFT of the blocks: a block starts at its first item and takes nothing from its left
+                    cases.append(Case(gid + "w", opts, tail + argv, tags={"role": "base", "group": gid, "blocks": [b[1] for b in blocks], "gnames": gnames}))
                 # interruptions: put a foreign/other item inside a block, or cut a block short
                 j = 0
                 pos0 = 0
@@ -142,6 +145,15 @@ class C19(Property):
             role = c.tags["role"]
             dist[role] = dist.get(role, 0) + 1
             ic = impl.get(c.id)
+            if role == "base":
+                # blocks in order, other options between them, trailing positionals after them: accepted, one value per block
+                # in command-line order
+                want = self.all_block_vals(c)
+                got = [v for v in self.sentinels_in(ic[1]) if v.startswith(b"B")] if compare.impl_class(ic) == "OK" else None
+                if got != want:
+                    out.append(Finding("violation", c, "complete blocks in order (other options between them, positionals after them) "
+                                                       "must yield one value per block in command-line order %r: %s"
+                                       % (want, common.show(ic))))
             if compare.impl_class(ic) != "OK":
                 continue
             nontrivial.append(c.line())
